@@ -5,12 +5,13 @@ import Lean
 The tables themselves are generated (`Iox2/Gen/FfiErrors.lean`, translator `/verif/extract/ffi_errors.py`);
 this file fixes their shape.
 
-`Name`: a source-level identifier or printable text.  It carries the string as written in the Rust source
-*and* its code points, with kernel-checked proofs that the two spell the same text.  Equality of names is
-decided on the code points (kernel-accelerated `Nat` comparisons with early exit).  The kernel's evaluation
-of `String` operations (UTF-8 encoding through `UInt8`/`BitVec` arithmetic) costs milliseconds per
-comparison, which does not scale to tables with ten thousands of comparisons; the `ok` field needs the kernel's
-own literal expansion `"ab" ≡ String.ofList [Char.ofNat 97, Char.ofNat 98]` once per literal only.
+`Name`: a source-level identifier or printable text.  It carries the string as written in the Rust source,
+its code points, and the code points packed into one natural number, with kernel-checked proofs that the
+three spell the same text.  Equality of names is decided on the packed number: ONE kernel-accelerated
+comparison of two `Nat` literals.  (The kernel's evaluation of `String` operations — UTF-8 encoding through
+`UInt8`/`BitVec` arithmetic — costs milliseconds per comparison, a list of code points about a millisecond
+for identifiers with long common prefixes; the tables need several 10^5 comparisons.)  The `ok` field uses
+the kernel's own literal expansion `"ab" ≡ String.ofList [Char.ofNat 97, Char.ofNat 98]`, once per literal.
 `Name.eq_iff` shows that equality of names is the ordinary equality of the strings: nothing about the
 statements changes.
 -/
@@ -20,11 +21,18 @@ namespace Iox2.Ffi
     the `n!` elaborator refuses other texts) -/
 def validKey (key : List Nat) : Bool := key.all (fun k => decide (k < 55296))
 
+/-- bijective base-65537 numeral of the code points (digits `c + 1 ∈ [1, 55296]`) -/
+def pack : List Nat → Nat
+  | [] => 0
+  | c :: cs => (c + 1) + 65537 * pack cs
+
 structure Name where
   str : String
   key : List Nat
+  packed : Nat
   valid : validKey key = true
   ok : str = String.ofList (key.map Char.ofNat)
+  packOk : packed = pack key
 
 theorem toNat_ofNat_of_lt {k : Nat} (h : k < 55296) : (Char.ofNat k).toNat = k := by
   have hv : k.isValidChar := Or.inl h
@@ -44,19 +52,40 @@ theorem key_eq_of_map_eq : ∀ (a b : List Nat), validKey a = true → validKey 
     have := key_eq_of_map_eq xs ys (by simpa [validKey] using ha.2) (by simpa [validKey] using hb.2) h.2
     rw [hxy, this]
 
+theorem pack_injective : ∀ (a b : List Nat), validKey a = true → validKey b = true → pack a = pack b → a = b
+  | [], [], _, _, _ => rfl
+  | [], y :: ys, _, _, h => by simp only [pack] at h; omega
+  | x :: xs, [], _, _, h => by simp only [pack] at h; omega
+  | x :: xs, y :: ys, ha, hb, h => by
+    simp only [validKey, List.all_cons, Bool.and_eq_true, decide_eq_true_eq] at ha hb
+    simp only [pack] at h
+    have hxy : x = y := by omega
+    have hp : pack xs = pack ys := by omega
+    have := pack_injective xs ys (by simpa [validKey] using ha.2) (by simpa [validKey] using hb.2) hp
+    rw [hxy, this]
+
 theorem Name.eq_iff_key (a b : Name) : a = b ↔ a.key = b.key := by
   constructor
   · intro h; rw [h]
   · intro h
     cases a with
-    | mk sa ka va oka =>
+    | mk sa ka pa va oka pka =>
       cases b with
-      | mk sb kb vb okb =>
+      | mk sb kb pb vb okb pkb =>
         simp only at h
         subst h
         have hs : sa = sb := oka.trans okb.symm
-        subst hs
+        have hp : pa = pb := pka.trans pkb.symm
+        subst hs; subst hp
         rfl
+
+theorem Name.eq_iff_packed (a b : Name) : a = b ↔ a.packed = b.packed := by
+  constructor
+  · intro h; rw [h]
+  · intro h
+    apply (Name.eq_iff_key a b).mpr
+    rw [a.packOk, b.packOk] at h
+    exact pack_injective _ _ a.valid b.valid h
 
 /-- equality of names is equality of the strings they spell -/
 theorem Name.eq_iff (a b : Name) : a = b ↔ a.str = b.str := by
@@ -68,40 +97,52 @@ theorem Name.eq_iff (a b : Name) : a = b ↔ a.str = b.str := by
     exact key_eq_of_map_eq _ _ a.valid b.valid (String.ofList_injective h)
 
 instance : DecidableEq Name := fun a b =>
-  if h : a.key = b.key then isTrue ((Name.eq_iff_key a b).mpr h)
-  else isFalse (fun hab => h ((Name.eq_iff_key a b).mp hab))
+  if h : a.packed = b.packed then isTrue ((Name.eq_iff_packed a b).mpr h)
+  else isFalse (fun hab => h ((Name.eq_iff_packed a b).mp hab))
 
 instance : Repr Name := ⟨fun n _ => repr n.str⟩
 
 open Lean Elab Term in
-/-- `n! "text"`: the name spelling `text`.  The code points are computed at elaboration time; the two proof
-    fields are `Eq.refl`s that the kernel checks when the enclosing declaration is added (the elaborator
-    itself is not trusted with them). -/
+/-- `n! "text"`: the name spelling `text`.  Code points and packed number are computed at elaboration time; the
+    three proof fields are `Eq.refl`s that the kernel checks when the enclosing declaration is added (the
+    elaborator itself is not trusted with them). -/
 elab "n!" s:str : term => do
   let str := s.getString
   let codes := str.toList.map Char.toNat
   unless codes.all (· < 55296) do
     throwErrorAt s "n!: code point outside the supported range in {repr str}"
-  let keyE : Expr := toExpr codes
+  let natT : Expr := Lean.mkConst ``Nat
+  let keyE : Expr := codes.foldr (fun c acc => mkApp3 (mkConst ``List.cons [0]) natT (mkRawNatLit c) acc)
+    (mkApp (mkConst ``List.nil [0]) natT)
+  let packed := codes.foldr (fun c acc => (c + 1) + 65537 * acc) 0
+  let packedE := mkRawNatLit packed
   let strE : Expr := mkStrLit str
   let validE := mkApp2 (mkConst ``Eq.refl [1]) (mkConst ``Bool) (mkConst ``Bool.true)
   let okE := mkApp2 (mkConst ``Eq.refl [1]) (mkConst ``String) strE
-  return mkApp4 (mkConst ``Iox2.Ffi.Name.mk) strE keyE validE okE
+  let packOkE := mkApp2 (mkConst ``Eq.refl [1]) natT packedE
+  return mkAppN (mkConst ``Iox2.Ffi.Name.mk) #[strE, keyE, packedE, validE, okE, packOkE]
 
-def Name.isEmpty (n : Name) : Prop := n.key = []
+def Name.isEmpty (n : Name) : Prop := n.packed = 0
 instance (n : Name) : Decidable n.isEmpty := by unfold Name.isEmpty; infer_instance
 
 theorem Name.isEmpty_iff (n : Name) : n.isEmpty ↔ n.str = "" := by
   unfold Name.isEmpty
   constructor
-  · intro h; rw [n.ok, h]; rfl
+  · intro h
+    have hk : n.key = [] := by
+      rw [n.packOk] at h
+      cases hkk : n.key with
+      | nil => rfl
+      | cons x xs => rw [hkk] at h; simp only [pack] at h; omega
+    rw [n.ok, hk]; rfl
   · intro h
     have h2 := n.ok
     rw [h] at h2
     have : (n.key.map Char.ofNat) = [] := by
       apply String.ofList_injective
       rw [← h2]
-    simpa using this
+    have hk : n.key = [] := by simpa using this
+    rw [n.packOk, hk]; rfl
 
 /-- one variant of a C enum: name, evaluated discriminant, printable name (empty = the enum has none) -/
 structure CVariant where
